@@ -1080,3 +1080,82 @@ Proof.
     split; apply fabs_new_le_one; auto using signed_interp_le_one.
   - unfold sin_cos. rewrite Hf. cbn [negb fst snd]. split; vm_compute; discriminate.
 Qed.
+
+(* ------------------------------------------------------------------ Part H: Q32.32 -> f32 is canonical *)
+Open Scope Z_scope.
+
+Ltac close_pows :=
+  repeat match goal with
+  | |- context [Z.pow ?a ?b] =>
+      let v := eval vm_compute in (Z.pow a b) in
+      lazymatch v with
+      | Z0 => change (Z.pow a b) with v
+      | Zpos _ => change (Z.pow a b) with v
+      end
+  end.
+
+(* one leading-bit position *)
+Lemma fx_to_f32_fields_k : forall k abs, 0 <= k <= 63 -> 2 ^ k <= abs < 2 ^ (k + 1) ->
+  let exp := k - 32 in
+  let sig := if 23 <? k then round_shift_right 128 abs (k - 23) else abs * 2 ^ (23 - k) in
+  let '(sig, exp) := if 2 ^ 24 <=? sig then (sig / 2, exp + 1) else (sig, exp) in
+  2 ^ 23 <= sig < 2 ^ 24 /\ 95 <= exp + 127 <= 159.
+Proof.
+  intros k abs Hk.
+  assert (Hcases : k = 0 \/ k = 1 \/ k = 2 \/ k = 3 \/ k = 4 \/ k = 5 \/ k = 6 \/ k = 7 \/ k = 8 \/ k = 9 \/
+    k = 10 \/ k = 11 \/ k = 12 \/ k = 13 \/ k = 14 \/ k = 15 \/ k = 16 \/ k = 17 \/ k = 18 \/ k = 19 \/
+    k = 20 \/ k = 21 \/ k = 22 \/ k = 23 \/ k = 24 \/ k = 25 \/ k = 26 \/ k = 27 \/ k = 28 \/ k = 29 \/
+    k = 30 \/ k = 31 \/ k = 32 \/ k = 33 \/ k = 34 \/ k = 35 \/ k = 36 \/ k = 37 \/ k = 38 \/ k = 39 \/
+    k = 40 \/ k = 41 \/ k = 42 \/ k = 43 \/ k = 44 \/ k = 45 \/ k = 46 \/ k = 47 \/ k = 48 \/ k = 49 \/
+    k = 50 \/ k = 51 \/ k = 52 \/ k = 53 \/ k = 54 \/ k = 55 \/ k = 56 \/ k = 57 \/ k = 58 \/ k = 59 \/
+    k = 60 \/ k = 61 \/ k = 62 \/ k = 63) by lia.
+  clear Hk.
+  repeat (destruct Hcases as [-> | Hcases]); try subst k;
+    (intros Habs; cbv zeta; unfold round_shift_right;
+     cbn [Z.ltb Z.eqb Z.leb Z.compare Pos.compare Pos.compare_cont Z.sub Z.add Z.opp Z.pos_sub Pos.succ Pos.add Pos.pred_double Z.succ_double Z.pred_double Z.double Pos.sub Pos.sub_mask] in *;
+     close_pows; revert Habs; close_pows; intros Habs;
+     zbools; repeat match goal with |- context [Z.odd ?q] => destruct (Z.odd q) end; zbools; lia).
+Qed.
+
+Lemma fields_canonical : forall s ef m : Z, (s = 0 \/ s = 1) -> 1 <= ef <= 254 -> 0 <= m < 2 ^ 23 ->
+  let b := Z.to_N (s * 2 ^ 31 + ef * 2 ^ 23 + m) in canonical b /\ is_finite b = true.
+Proof.
+  intros s ef m Hs Hef Hm b.
+  change (2 ^ 31) with 2147483648 in *. change (2 ^ 23) with 8388608 in *.
+  assert (Hb : (b < TWO32)%N) by (unfold b, TWO32; lia).
+  assert (He : expo b = Z.to_N ef).
+  { unfold expo, TWO23, b. lia. }
+  split.
+  - apply canonical_classes_l. split; [exact Hb|]. right. left. rewrite He. lia.
+  - unfold is_finite. rewrite He. destruct (N.eqb_spec (Z.to_N ef) 255); [lia | reflexivity].
+Qed.
+
+(* Q32.32 -> f32 never produces -0, a subnormal, an infinity or a NaN *)
+Lemma fx_to_f32_canonical_l : forall raw, in_i64 raw ->
+  canonical (fx_to_f32 raw) /\ is_finite (fx_to_f32 raw) = true.
+Proof.
+  intros raw Hr. unfold fx_to_f32.
+  destruct (Z.eqb_spec raw 0) as [E|NE].
+  - split; [apply canonicalb_spec; reflexivity | reflexivity].
+  - set (abs := Z.abs raw). set (k := Z.log2 abs).
+    assert (Habs : 1 <= abs <= 2 ^ 63) by (unfold abs; unfold_fx; lia).
+    assert (Hspec : 2 ^ k <= abs < 2 ^ (k + 1)).
+    { unfold k. replace (Z.log2 abs + 1) with (Z.succ (Z.log2 abs)) by lia. apply Z.log2_spec. lia. }
+    assert (Hk : 0 <= k <= 63).
+    { split; [apply Z.log2_nonneg|].
+      destruct (Z_le_gt_dec k 63) as [H|H]; [exact H|exfalso].
+      assert (2 ^ 64 <= 2 ^ k) by (apply Z.pow_le_mono_r; lia). lia. }
+    pose proof (fx_to_f32_fields_k k abs Hk Hspec) as HF. cbv zeta in HF.
+    clearbody k. clear Hspec.
+    destruct (if 2 ^ 24 <=? _ then _ else _) as [sig ex].
+    destruct HF as [Hsig Hex].
+    assert (Hm : 0 <= sig mod 2 ^ 23 < 2 ^ 23) by (apply Z.mod_pos_bound; reflexivity).
+    assert (He : 1 <= ex + 127 <= 254) by lia.
+    destruct (raw <? 0).
+    + pose proof (fields_canonical 1 (ex + 127) (sig mod 2 ^ 23) (or_intror eq_refl) He Hm) as H.
+      cbv zeta in H. rewrite Z.mul_1_l in H. exact H.
+    + pose proof (fields_canonical 0 (ex + 127) (sig mod 2 ^ 23) (or_introl eq_refl) He Hm) as H.
+      cbv zeta in H. rewrite Z.mul_0_l in H. exact H.
+Qed.
+
+Close Scope Z_scope.
